@@ -47,6 +47,37 @@ Proof.
     + intros Hin. apply (Hns x Hx). right. exact Hin.
 Qed.
 
+(* an operation is deferred only behind an operation with the same suffix that is either already seen or included *)
+Lemma split_batch_additional_behind f : forall l seen o,
+  In o (additional (split_batch f seen l)) ->
+  In (q_sfx o) seen \/ exists i, In i (included (split_batch f seen l)) /\ q_sfx i = q_sfx o.
+Proof.
+  induction l as [|h r IH]; intros seen o; cbn [split_batch]; [intros []|].
+  destruct (f (q_id h)); cbn [included additional]; [apply IH|].
+  destruct (memZ (q_sfx h) seen) eqn:Em; cbn [included additional].
+  - intros [<-|Hin]; [left; apply memZ_In; exact Em | apply IH; exact Hin].
+  - intros Hin. destruct (IH _ _ Hin) as [[Hs|Hs]|(i & Hi & Hs)].
+    + right. exists h. split; [left; reflexivity | exact Hs].
+    + left. exact Hs.
+    + right. exists i. split; [right; exact Hi | exact Hs].
+Qed.
+
+(* F16: when nothing is included (every operation of the batch expired), nothing is deferred either *)
+Lemma split_batch_included_nil_additional_nil f l :
+  included (split_batch f [] l) = [] -> additional (split_batch f [] l) = [].
+Proof.
+  intros Hi. destruct (additional (split_batch f [] l)) as [|o r] eqn:Ea; [reflexivity|].
+  destruct (split_batch_additional_behind f l [] o) as [[]|(i & Hin & _)]; [rewrite Ea; left; reflexivity|].
+  rewrite Hi in Hin. destruct Hin.
+Qed.
+
+Lemma split_batch_all_expired_perm f l :
+  included (split_batch f [] l) = [] -> Permutation l (expired_ops (split_batch f [] l)).
+Proof.
+  intros Hi. pose proof (split_batch_perm f l []) as Hp. cbn zeta in Hp.
+  rewrite Hi, (split_batch_included_nil_additional_nil f l Hi) in Hp. exact Hp.
+Qed.
+
 (* -- conservation -- *)
 Definition anchored_ops (s : wstate) : list qop := concat (map ab_included (anchored s)).
 
@@ -94,14 +125,14 @@ Definition pc_wf (max : nat) (s : wstate) : Prop :=
   | AtAnchor tf cf batch ver sp =>
       shape_ok max cf (boundary_seen s) ver batch /\
       Permutation batch (included sp ++ additional sp ++ expired_ops sp) /\ incl (included sp) batch /\
-      NoDup (map q_sfx (included sp))
+      NoDup (map q_sfx (included sp)) /\ included sp <> []
   | AtReAdd tf cf batch ver rest => homogeneous ver rest
   | _ => True
   end.
 
 Definition batch_ok (max : nat) (b : anchored_batch) : Prop :=
   shape_ok max (ab_forced b) (ab_boundary b) (ab_ver b) (ab_removed b) /\
-  incl (ab_included b) (ab_removed b) /\ NoDup (map q_sfx (ab_included b)).
+  incl (ab_included b) (ab_removed b) /\ NoDup (map q_sfx (ab_included b)) /\ ab_included b <> [].
 
 Definition Inv (max : nat) (s : wstate) : Prop :=
   conserved s /\ pc_wf max s /\ Forall (batch_ok max) (anchored s).
@@ -199,17 +230,26 @@ Proof.
   - (* Prepare *)
     destruct (wpc s) eqn:Epc; try (apply mark_stuck_inv; repeat split; assumption).
     unfold pc_wf in Hw. rewrite Epc in Hw.
-    destruct ok; (split; [|split; [|exact Hb]]).
+    destruct ok; [destruct (included (split_batch (fun i => memZ i ex) [] batch)) as [|i0 ir] eqn:Einc|];
+      (split; [|split; [|exact Hb]]).
+    + (* F16: every operation expired - the whole batch moves to [discarded], no anchor *)
+      assert (Hids : Permutation (ids batch) (ids (expired_ops (split_batch (fun i => memZ i ex) [] batch))))
+        by (apply Permutation_map, split_batch_all_expired_perm; exact Einc).
+      unfold conserved, all_ops, anchored_ops in Hc; rewrite Epc in Hc. cbn [inflight] in Hc.
+      perm_by_count Hc.
+      pose proof (proj1 (Permutation_count_occ Z.eq_dec _ _) Hids x) as Hz. unfold ids in Hz. lia.
+    + unfold pc_wf. cbn. constructor.
     + unfold conserved, all_ops, anchored_ops in *; cbn; unfold conserved, all_ops, anchored_ops in Hc; rewrite Epc in Hc; exact Hc.
-    + unfold pc_wf. cbn. repeat split; try apply Hw.
+    + unfold pc_wf. cbn [wpc set_pc boundary_seen]. repeat split; try apply Hw.
       * apply split_batch_perm.
       * apply split_batch_included_incl.
       * apply split_batch_suffixes_distinct.
+      * rewrite Einc. discriminate.
     + unfold conserved, all_ops, anchored_ops in *; cbn; unfold conserved, all_ops, anchored_ops in Hc; rewrite Epc in Hc; exact Hc.
     + unfold pc_wf. cbn. exact I.
   - (* Anchor *)
     destruct (wpc s) eqn:Epc; try (apply mark_stuck_inv; repeat split; assumption).
-    unfold pc_wf in Hw. rewrite Epc in Hw. destruct Hw as (Hs & Hperm & Hincl & Hnd).
+    unfold pc_wf in Hw. rewrite Epc in Hw. destruct Hw as (Hs & Hperm & Hincl & Hnd & Hne).
     destruct ok; (split; [|split]).
     + unfold conserved, all_ops, anchored_ops in Hc; rewrite Epc in Hc. cbn [inflight] in Hc.
       assert (Hids : Permutation (ids batch) (ids (included sp ++ additional sp ++ expired_ops sp))) by (apply Permutation_map; exact Hperm).
@@ -303,7 +343,16 @@ Theorem batch_shape max q es :
          (anchored s).
 Proof.
   intros s. destruct (run_inv max es (init q) (init_inv max q)) as (_ & _ & Hb). fold s in Hb.
-  eapply Forall_impl; [|exact Hb]. intros b ((Hl & Hh & Hf) & Hi & Hn). auto.
+  eapply Forall_impl; [|exact Hb]. intros b ((Hl & Hh & Hf) & Hi & Hn & _). auto.
+Qed.
+
+(* F16: an anchor is written only for a batch with at least one included operation (a batch whose operations have all
+   expired is committed without an anchor; its operations are in [discarded]) *)
+Theorem anchored_nonempty max q es :
+  let s := run max (init q) es in Forall (fun b => ab_included b <> []) (anchored s).
+Proof.
+  intros s. destruct (run_inv max es (init q) (init_inv max q)) as (_ & _ & Hb). fold s in Hb.
+  eapply Forall_impl; [|exact Hb]. intros b (_ & _ & _ & Hne). exact Hne.
 Qed.
 
 (* FIFO: removal takes the head of the queue; a failed batch returns to the head in its order *)
